@@ -47,7 +47,9 @@ Definition hpost (s : hst) (x : hitem) : hst :=
   | HCall _ => s
   | HEnd now f =>
       let k' := kind_of (f_state f) in
-      mkH k' (if in_visit k' then (if in_visit (h_kind s) then h_asked s || h_lp s || h_hp s else false) else false)
+      (* a first-visit state (C15Proofs.fresh_visit) is the station's NEXT visit when it passed the token
+         to itself in this poll; inside a visit it means that nobody has been asked yet *)
+      mkH k' (if in_visit k' then (if in_visit (h_kind s) then (if fresh_visit (f_state f) then false else h_asked s || h_lp s || h_hp s) else false) else false)
           false false
   | HReset => mkH KOffline false false false
   end.
@@ -62,7 +64,9 @@ Definition gpre (s : gst) (x : hitem) : Prop :=
   match x with
   | HEnd now f =>
       kind_of (f_state f) = KAwaitStatusResponse -> g_kind s <> KAwaitStatusResponse ->
-      g_kind s = KPassToken /\ g_gaps s = 0%nat
+      (* the GAP request goes out in the poll that finds nothing (more) to send (F20 repair), or - when
+         that poll had to wait for the synchronisation pause - from PassToken *)
+      (g_kind s = KPassToken \/ in_visit (g_kind s) = true) /\ g_gaps s = 0%nat
   | _ => True
   end.
 
@@ -98,7 +102,7 @@ Definition dpost (s : dst) (x : hitem) : dst :=
   | HCall _ => s
   | HEnd now f =>
       let k' := kind_of (f_state f) in
-      mkD k' (if in_visit k' then (if in_visit (d_kind s) then (if d_cur s then Some (f_end_tht f) else d_dead s) else None) else None)
+      mkD k' (if in_visit k' then (if in_visit (d_kind s) then (if fresh_visit (f_state f) then None else if d_cur s then Some (f_end_tht f) else d_dead s) else None) else None)
           false
   | HReset => mkD KOffline None false
   end.
@@ -158,8 +162,8 @@ Proof. unfold inst_sub_dur. destruct (i64_ok _); [|discriminate]. intros H. inje
 (* The deadline of the visit as coded: computed once per visit, at the first do_use_token of the visit
    (recognised by last_token_time <> token_time), as previous token time + TTR - GAP reserve; and
    what state do_use_token leaves. *)
-Lemma do_use_token_state f now (w : W) f' w' tk fa fcd :
-  do_use_token A ops f now w = Ok (f', w') -> f_state f = UseToken tk fa fcd ->
+Lemma do_use_token_head_state f now (w : W) f' w' tk fa fcd :
+  do_use_token_head A ops f now w = Ok (f', w') -> f_state f = UseToken tk fa fcd ->
   f_p f' = f_p f /\
   (if f_last_token_time f =? tk
    then f_last_token_time f' = f_last_token_time f /\ f_end_tht f' = f_end_tht f
@@ -170,7 +174,7 @@ Lemma do_use_token_state f now (w : W) f' w' tk fa fcd :
    (exists a fa', f_state f' = AwaitDataResponse a tk fa') \/
    f_state f' = PassToken true first_attempt).
 Proof.
-  unfold do_use_token, assert_entry. intros H Es. rewrite Es in H.
+  unfold do_use_token_head, assert_entry. intros H Es. rewrite Es in H.
   cbn [f_state kind_of do_fn_entry state_kind_eqb bind get_use_token] in H.
   match type of H with bind ?x _ = _ => destruct x as [[f1 w1]| |] eqn:E1 end; cbn [bind] in H; try discriminate H.
   assert (H1 : f_p f1 = f_p f /\ f_state f1 = f_state f /\ w_calls w1 = w_calls w /\
@@ -230,6 +234,36 @@ Proof.
         destruct (Hround _ _ _ _ _ El H) as [Kh Hst]. destruct (Hfin _ Kh) as [X Y]. split; [exact X|]. split; [exact Y|right; exact Hst].
 Qed.
 
+(* the token has been passed on in this poll: what do_pass_token leaves (C15Proofs.do_pass_token_ends) *)
+Definition passed_on (now : Z) (s : state) : Prop :=
+  pass_kind (kind_of s) = true \/ s = UseToken now None false.
+
+(* the whole do_use_token (F20 repair: the head, then do_pass_token in the same poll when the head turned
+   to passing the token): same deadline; the last case is now "the token has been passed on" *)
+Lemma do_use_token_state f now (w : W) f' w' tk fa fcd :
+  do_use_token A ops f now w = Ok (f', w') -> f_state f = UseToken tk fa fcd ->
+  f_p f' = f_p f /\
+  (if f_last_token_time f =? tk
+   then f_last_token_time f' = f_last_token_time f /\ f_end_tht f' = f_end_tht f
+   else f_last_token_time f' = tk /\
+        f_end_tht f' = f_last_token_time f + token_rotation_time (f_p f) - gap_reserve f) /\
+  ((f_state f' = f_state f /\ w_calls w' = w_calls w) \/
+   (exists fa', f_state f' = UseToken tk fa' true) \/
+   (exists a fa', f_state f' = AwaitDataResponse a tk fa') \/
+   passed_on now (f_state f')).
+Proof.
+  rewrite do_use_token_split. intros H Es.
+  destruct (do_use_token_head A ops f now w) as [[f1 w1]| |] eqn:Eh; cbn [bind] in H; try discriminate H.
+  eapply do_use_token_head_state in Eh; [|exact Es]. destruct Eh as [Hp [Hd Hst]].
+  destruct (is_pass_token (f_state f1)) eqn:Ek.
+  - pose proof (do_pass_token_ends _ _ _ _ _ _ H) as Hends.
+    apply do_pass_token_hold in H. destruct H as [Kp [Kl [Ke _]]].
+    split; [congruence|]. split; [rewrite Kl, Ke; exact Hd|]. right. right. right. exact Hends.
+  - injection H as <- <-. split; [exact Hp|]. split; [exact Hd|].
+    destruct Hst as [X|[X|[X|X]]]; [left; exact X|right; left; exact X|right; right; left; exact X|].
+    rewrite X in Ek. discriminate Ek.
+Qed.
+
 (* ------------------------------------------------------------------------------------------ *)
 (* Part 2: one poll, all states                                                                *)
 
@@ -275,14 +309,14 @@ Proof.
 Qed.
 
 (* how a poll moves the station inside a visit *)
-Definition visit_step (f : fdl) (calls : list call) (f' : fdl) : Prop :=
+Definition visit_step (now : Z) (f : fdl) (calls : list call) (f' : fdl) : Prop :=
   exists tk,
     ((exists fa fcd, f_state f = UseToken tk fa fcd) \/ (exists a fa, f_state f = AwaitDataResponse a tk fa)) /\
     ((f_state f' = f_state f /\ calls = []) \/
      (f_state f' = ActiveIdle None None 0 /\ calls = [] /\ exists a fa, f_state f = AwaitDataResponse a tk fa) \/
      (exists fa', f_state f' = UseToken tk fa' true) \/
      (exists a fa', f_state f' = AwaitDataResponse a tk fa') \/
-     f_state f' = PassToken true first_attempt) /\
+     passed_on now (f_state f')) /\
     (* the deadline of the visit: kept once last_token_time is the token time of the visit, which it is
        as soon as applications have been asked *)
     (f_last_token_time f = tk -> f_last_token_time f' = tk /\ f_end_tht f' = f_end_tht f) /\
@@ -290,7 +324,7 @@ Definition visit_step (f : fdl) (calls : list call) (f' : fdl) : Prop :=
 
 Lemma poll_state_cases f now pin (apps : list A) f' o apps' calls :
   poll ops f now pin apps = Ok (f', o, apps', calls) ->
-  (calls = [] /\ quiet_poll now f f') \/ visit_step f calls f'.
+  (calls = [] /\ quiet_poll now f f') \/ visit_step now f calls f'.
 Proof.
   intros H. apply poll_calls_cases in H.
   destruct H as [[-> [_ Hq]]|[f3 [w3 [w' [Kf3 [Hs3 [Hc3 [Ha3 [-> [_ [Hd|Hd]]]]]]]]]]].
@@ -440,7 +474,9 @@ Proof.
     + rewrite posts_app. fold s1. cbn. unfold InvH. cbn. split; [reflexivity|]. split; [reflexivity|]. split; [reflexivity|].
       destruct (f_state f1) as [ | | | |tk1 fa1 fcd1| | | | | ] eqn:Es1; try exact I. cbn.
       rewrite P1, P2, Hk. destruct (in_visit (kind_of (f_state f))) eqn:Hin; [|discriminate].
-      intros Hor.
+      intros Hor0.
+      assert (Hor : h_asked s || h_lp s1 || h_hp s1 = true).
+      { destruct fa1; [exact Hor0|]. destruct fcd1; [exact Hor0|discriminate Hor0]. }
       destruct Hcases as [[Hnil Hq]|[tk [Hfrom [Hto _]]]].
       * (* no calls: the state is unchanged *)
         assert (Es : f_state f1 = f_state f) by (apply (quiet_poll_visit _ _ _ Hq Hin); rewrite Es1; reflexivity).
@@ -451,6 +487,8 @@ Proof.
         -- rewrite <- E1 in Hfcd. apply Hfcd. destruct (h_asked s); [reflexivity|]. cbn in Hor. exfalso. apply asks_nil. rewrite <- E2. apply P5.
            destruct (h_lp s1); [left; reflexivity|right; exact Hor].
         -- injection E1 as _ _ ->. reflexivity.
+        -- (* the next visit of a station that passed the token to itself: nobody has been asked *)
+           destruct E1 as [E1|E1]; [discriminate E1|]. injection E1 as _ -> ->. discriminate Hor0.
   - unfold set_online, set_state in H. cbn [bind] in H. injection H as <- _ <-.
     split; [exact I|]. unfold InvH. cbn. tauto.
   - unfold set_offline, set_state in H. destruct (fdl_new (f_p f)) as [f1| |] eqn:En; cbn [bind] in H; try discriminate H.
@@ -479,7 +517,8 @@ Proof.
     destruct (gcalls calls s) as [Hacc Hsame].
     (* where the new state can come from *)
     assert (Hfrom : (forall a, f_state f1 = AwaitStatusResponse a ->
-                       f_state f = f_state f1 \/ exists att, f_state f = PassToken true att) /\
+                       f_state f = f_state f1 \/ (exists att, f_state f = PassToken true att) \/
+                       in_visit (kind_of (f_state f)) = true) /\
                     (forall att, f_state f1 = PassToken true att ->
                        f_state f = f_state f1 \/ in_visit (kind_of (f_state f)) = true)).
     { destruct Hcases as [[_ [_ [R|[_ [s3 [Hp [Hq _]]]]]]]|[tk [Hfr [Hto _]]]].
@@ -487,22 +526,24 @@ Proof.
       - split.
         + intros a E. rewrite E in Hq. cbn in Hq. destruct Hq as [Hq|[att Hq]].
           * destruct Hp as [Hp|[_ [Hp|Hp]]]; [left; congruence|congruence|congruence].
-          * destruct Hp as [Hp|[_ [Hp|Hp]]]; [right; exists att; congruence|congruence|congruence].
+          * destruct Hp as [Hp|[_ [Hp|Hp]]]; [right; left; exists att; congruence|congruence|congruence].
         + intros att E. rewrite E in Hq. cbn in Hq.
           destruct Hp as [Hp|[_ [Hp|Hp]]]; [left; congruence|congruence|congruence].
       - assert (Hin : in_visit (kind_of (f_state f)) = true)
           by (destruct Hfr as [[fa [fcd ->]]|[a [fa ->]]]; reflexivity).
         split.
         + intros a E. destruct Hto as [[E1 _]|[[E1 _]|[[fa' E1]|[[a' [fa' E1]]|E1]]]]; rewrite E in E1; try discriminate E1.
-          left. congruence.
+          * left. congruence.
+          * right. right. exact Hin.
         + intros att E. right. exact Hin. }
     destruct Hfrom as [Hasr Hpass].
     split.
     + apply accepts_app. split; [exact Hacc|]. rewrite Hsame. cbn. split; [|exact I].
       intros Ek Hne. destruct (f_state f1) as [ | | | | | | | | |a] eqn:Es1; try discriminate Ek.
-      destruct (Hasr a eq_refl) as [E|[att E]].
+      destruct (Hasr a eq_refl) as [E|[[att E]|Hin]].
       * exfalso. apply Hne. rewrite Hk, E. reflexivity.
-      * split; [rewrite Hk, E; reflexivity|exact (Hpt _ E)].
+      * split; [left; rewrite Hk, E; reflexivity|exact (Hpt _ E)].
+      * split; [right; rewrite Hk; exact Hin|exact (Hvis Hin)].
     + rewrite posts_app, Hsame. cbn. unfold InvG. cbn. split; [reflexivity|].
       split; [intros ->; reflexivity|].
       intros att E. rewrite E. cbn. destruct (Hpass att E) as [E'|Hin].
@@ -560,6 +601,7 @@ Proof.
         rewrite P1, P2, Hc1, Hk. intros e0 He0.
         destruct (in_visit (kind_of (f_state f1))) eqn:Hin1; [|discriminate He0].
         destruct (in_visit (kind_of (f_state f))) eqn:Hin; [|discriminate He0].
+        destruct (fresh_visit (f_state f1)); [discriminate He0|].
         pose proof (quiet_poll_visit _ _ _ Hq Hin Hin1) as Es. rewrite Es. specialize (Hdead _ He0).
         destruct Hq as [_ [[R _]|[[_ [_ [Kl Ke]]] _]]]; [rewrite R in Hin1; discriminate Hin1|].
         rewrite Kl, Ke. exact Hdead.
@@ -576,6 +618,7 @@ Proof.
         rewrite Hin in He0.
         assert (Hgoal : f_last_token_time f1 = tk /\ f_end_tht f1 = e0).
         { destruct (in_visit (kind_of (f_state f1))); [|discriminate He0].
+          destruct (fresh_visit (f_state f1)); [discriminate He0|].
           destruct (d_cur s1) eqn:Ec.
           - injection He0 as <-. split; [exact (D2 (Hasks eq_refl))|reflexivity].
           - destruct (Htk _ He0) as [T1 T2]. destruct (D1 T1) as [X Y]. split; congruence. }
@@ -584,7 +627,9 @@ Proof.
         -- rewrite E1 in He0. discriminate He0.
         -- rewrite E1. exact Hgoal.
         -- rewrite E1. exact Hgoal.
-        -- rewrite E1 in He0. discriminate He0.
+        -- destruct E1 as [E1|E1].
+           ++ destruct (f_state f1); try discriminate E1; discriminate He0.
+           ++ rewrite E1 in He0. discriminate He0.
   - unfold set_online, set_state in H. cbn [bind] in H. injection H as <- _ <-.
     split; [exact I|]. unfold InvD. cbn. tauto.
   - unfold set_offline, set_state in H. destruct (fdl_new (f_p f)) as [f1| |] eqn:En; cbn [bind] in H; try discriminate H.
